@@ -150,6 +150,7 @@ func buildStream(seed int64, blocks int) *world {
 	}
 	trunk := []*block.Block{net.B0}
 	var pendingSide []*block.Block // side blocks delivered late
+	deepLeft := 2                  // deep reorganisations per stream
 	for len(trunk) <= blocks {
 		parent := trunk[len(trunk)-1]
 		num := parent.Header().Number() + 1
@@ -190,6 +191,33 @@ func buildStream(seed int64, blocks int) *world {
 		if len(pendingSide) > 0 && rng.Intn(3) == 0 {
 			w.stream = append(w.stream, pendingSide...)
 			pendingSide = nil
+		}
+		// a deep reorganisation: a branch leaving the trunk 2..4 blocks back, with transactions (logs) at every height,
+		// grows two blocks past the trunk's head and takes over - the log db has to truncate and rewrite several blocks
+		if !wedge && deepLeft > 0 && len(trunk) > 6 && rng.Intn(5) == 0 {
+			back := 2 + rng.Intn(3)
+			forkAt := len(trunk) - 1 - back
+			cur := trunk[forkAt]
+			var side []*block.Block
+			ok := true
+			for k := 0; k < back+2 && ok; k++ {
+				n := cur.Header().Number() + 1
+				var nb *block.Block
+				for try := 0; try < 3 && nb == nil; try++ {
+					nb = mint(cur, 1+(int(n)+1+try)%3, n >= 2*E, true)
+				}
+				if nb == nil {
+					ok = false
+					break
+				}
+				side = append(side, nb)
+				cur = nb
+			}
+			if ok {
+				deepLeft--
+				w.stream = append(w.stream, side...)
+				trunk = append(append([]*block.Block{}, trunk[:forkAt+1]...), side...)
+			}
 		}
 	}
 	w.stream = append(w.stream, pendingSide...)
